@@ -8,5 +8,5 @@ MCShapes == JsonDeserialize(IOEnv.VERIF_SHAPES)
 MCProps == {"C06"}
 MCScript == <<"LoadRaw", "FreshObj", "CopyFrom">>
 ASSUME PrintT("SHAPES " \o ToJson(MCShapes))
-INSTANCE Session WITH Shapes <- MCShapes, Script <- MCScript, Deep <- MCDeep, Props <- MCProps, ObjMode <- "all", RawMode <- "corrupt"
+INSTANCE Session WITH Shapes <- MCShapes, Script <- MCScript, Deep <- MCDeep, Props <- MCProps, ObjMode <- "all", RawMode <- "corrupt", EmptyMode <- "plain"
 ====
